@@ -46,7 +46,10 @@ def _partition(d, rng, refs, ncells, depth, universe, next_id, p_obf=0.15):
             e = G.obfuscate(e, rng, p_obf)
         mat = rng.choice([0, 1, 2, 3])
         rho = None if mat == 0 else rng.choice(['-2.7', '-1.0', '0.05', '-7.8', '1.2-2', '-2.70', '-1.', '-1.00', '5-2', '-2.7e0'])
-        cell = D.Cell(next_id[0], e, mat=mat, rho=rho, imp=1, u=universe)
+        # inside a universe the importance written on a cell is immaterial to the conversion (the generated cells take
+        # the importance of the level-0 container): zero must not make the cell vanish
+        imp = 1 if universe == 0 or rng.random() > 0.15 else 0
+        cell = D.Cell(next_id[0], e, mat=mat, rho=rho, imp=imp, u=universe)
         next_id[0] += rng.choice([1, 1, 2, 3])
         cells.append(cell)
         d.cells.append(cell)
